@@ -35,26 +35,12 @@ theorem stuck_zero {s : State} (hz : (s.th 0).pc = IPc.idle) (hp : (s.th 0).prog
     Stuck s 0 := by
   constructor <;> simp [hz, hp, holdsP, ownsQ, ownsD, ownsRes, holding, contInFlight]
 
-theorem full_not_stuck {n : Nat} {s : State} (h : Live n s) (hw : W s) (hp : PInv s)
-    (hL : Locks s) (hS : Safe s) (hi : Inv s) :
-    ∃ t, t ≤ n ∧ enabled Cfg.fixed s t = true := by
-  apply Classical.byContradiction
-  intro hc
-  have hno : ∀ t, t ≤ n → step Cfg.fixed s t = none := by
-    intro t ht
-    cases hst : step Cfg.fixed s t with
-    | none => rfl
-    | some x => exact absurd ⟨t, ht, by simp [enabled, hst]⟩ hc
+/-- if no interface thread can move, the solver can -/
+theorem stuck_solver_moves {n : Nat} {s : State} (h : Live n s) (hw : W s) (hp : PInv s)
+    (hL : Locks s) (hS : Safe s) (hi : Inv s) (hst : ∀ v, Stuck s v) :
+    stepSolver Cfg.fixed s ≠ none := by
+  intro h0
   have hz := hw.zero
-  have hst : ∀ v, Stuck s v := by
-    intro v
-    by_cases hv : v = 0
-    · subst hv; exact stuck_zero hz h.zprog
-    · apply stuck_of_none
-      by_cases hvn : v ≤ n
-      · have := hno v hvn; simpa [step, hv] using this
-      · have := h.inert v (Nat.lt_of_not_le hvn); simp [stepIface, this.1, this.2]
-  have h0 : stepSolver Cfg.fixed s = none := by simpa [step] using hno 0 (Nat.zero_le _)
   have hpo : s.pOwner = none ∨ (s.pOwner = some 0 ∧ (s.spc = SPc.ntaP ∨ s.spc = SPc.relP)) := by
     cases hpl : s.pOwner with
     | none => exact Or.inl rfl
@@ -133,5 +119,82 @@ theorem full_not_stuck {n : Nat} {s : State} (h : Live n s) (hw : W s) (hp : PIn
   have hnc := hnoC u
   cases hpc : (s.th u).pc <;>
     simp_all [consF, holdsP, ownsQ, ownsD, ownsRes, WF, contInFlight, holding]
+
+theorem full_not_stuck {n : Nat} {s : State} (h : Live n s) (hw : W s) (hp : PInv s)
+    (hL : Locks s) (hS : Safe s) (hi : Inv s) :
+    ∃ t, t ≤ n ∧ enabled Cfg.fixed s t = true := by
+  apply Classical.byContradiction
+  intro hc
+  have hno : ∀ t, t ≤ n → step Cfg.fixed s t = none := by
+    intro t ht
+    cases hst : step Cfg.fixed s t with
+    | none => rfl
+    | some x => exact absurd ⟨t, ht, by simp [enabled, hst]⟩ hc
+  have hz := hw.zero
+  have hst : ∀ v, Stuck s v := by
+    intro v
+    by_cases hv : v = 0
+    · subst hv; exact stuck_zero hz h.zprog
+    · apply stuck_of_none
+      by_cases hvn : v ≤ n
+      · have := hno v hvn; simpa [step, hv] using this
+      · have := h.inert v (Nat.lt_of_not_le hvn); simp [stepIface, this.1, this.2]
+  have h0 : stepSolver Cfg.fixed s = none := by simpa [step] using hno 0 (Nat.zero_le _)
+  exact stuck_solver_moves h hw hp hL hS hi hst h0
+
+/-- if no interface thread can move while the solver is between its two critical
+sections with nothing queued and nobody pausing, every interface thread has finished -/
+theorem stuck_idle_all_done {n : Nat} {s : State} (h : Live n s) (hw : W s)
+    (hL : Locks s) (hi : Inv s) (hst : ∀ v, Stuck s v)
+    (hsp : s.spc = SPc.acqQ2) (hpe : s.pause = []) (hqe : s.queue = []) (u : Tid) :
+    (s.th u).pc = IPc.idle ∧ (s.th u).prog = [] := by
+  have hp0 : s.pOwner = none := by
+    cases hpl : s.pOwner with
+    | none => rfl
+    | some v =>
+      rcases hL.lp.p3 v hpl with ⟨rfl, hs⟩ | hh
+      · rw [hsp] at hs; rcases hs with hs | hs <;> cases hs
+      · rw [(hst v).noP] at hh; cases hh
+  have hr0 : s.resLock = none := by
+    cases hrl : s.resLock with
+    | none => rfl
+    | some v =>
+      rcases hL.lr.r3 v hrl with ⟨rfl, hs⟩ | hh
+      · rw [hsp] at hs; cases hs
+      · rw [(hst v).noRes] at hh; cases hh
+  have hq0 : s.qOwner = none := by
+    cases hql : s.qOwner with
+    | none => rfl
+    | some v =>
+      rcases hL.lq.q3 v hql with ⟨rfl, hs⟩ | hh
+      · rw [hsp] at hs; cases hs
+      · rw [(hst v).noQ] at hh; cases hh
+  have hd0 : s.dlock = none := by
+    cases hdl : s.dlock with
+    | none => rfl
+    | some v =>
+      obtain ⟨c, id, hpc⟩ := (hst v).hasD (hL.ld.d2 v hdl)
+      exact absurd hq0 ((hst v).wantQ (Or.inr ⟨c, id, hpc⟩))
+  have hnoC : ∀ k, (s.th u).pc ≠ IPc.rAcqC k := by
+    intro k hpc
+    have hk := (hst u).wantC k hpc
+    have := hL.co.cown k hk
+      (by intro v c hv; exact absurd hq0 ((hst v).wantQ (Or.inr ⟨c, k, hv⟩)))
+      (by intro v hv; exact absurd hr0 ((hst v).wantRes k ((hst v).hasC k hv)))
+    obtain ⟨hkq, hk2⟩ := this
+    rw [hi.fifo, hqe] at hkq
+    simp only [inflight, hsp, inflightPc_acqQ2, List.append_nil] at hkq
+    rcases hk2 with hk2 | hk2
+    · exact hk2 hkq
+    · rw [hsp] at hk2; cases hk2
+  have hnoW : (s.th u).pc ≠ IPc.wBlocked := by
+    intro hpc
+    have := (hw.kept u (h.wb u hpc)).1
+    rw [hpe] at this; cases this
+  obtain ⟨s1, s2, s3, s4, s5, s6, s7, s8, s9, s10, s11, s12⟩ := hst u
+  have hidle : (s.th u).pc = IPc.idle := by
+    cases hpc : (s.th u).pc <;>
+      simp_all [holdsP, ownsQ, ownsD, ownsRes, contInFlight, holding]
+  exact ⟨hidle, s4 hidle⟩
 
 end PysphVerif.Controller
